@@ -82,6 +82,9 @@ def run(case):
     exec(src, env2)
     f2 = env2['f']
     f2.__annotations__ = {p: spy(p) for p in sig['annotated']}
+    import typing
+    for p, h in sig.get('ignorable', []):
+        f2.__annotations__[p] = {'object': object, 'Any': typing.Any, 'Optional[object]': typing.Optional[object]}[h]
     if sig.get('annotate_return'):
         f2.__annotations__['return'] = spy('return')
     try:
